@@ -478,6 +478,8 @@ def expander(name):
     return {
         "xmd256": lambda m, d, l: expand_xmd("sha256", m, d, l),
         "xmd512": lambda m, d, l: expand_xmd("sha512", m, d, l),
+        "xmd224": lambda m, d, l: expand_xmd("sha224", m, d, l),
+        "xmd384": lambda m, d, l: expand_xmd("sha384", m, d, l),
         "xof128": lambda m, d, l: expand_xof("shake_128", m, d, l),
         "xof256": lambda m, d, l: expand_xof("shake_256", m, d, l),
     }[name]
